@@ -37,6 +37,20 @@ pub enum Note {
     Clear,
     Take(u64),
     Drop(u64),
+    /// Bulk prelude: `n` updates with distinct keys (see `fill_updates`), sent as `n` update frames.
+    /// One op in the case so that large maps stay cheap to generate and to shrink.
+    Fill { n: u16, seed: u16 },
+}
+
+/// The updates a `Fill` stands for: keys 100 + a permutation of 0..1000 (7919 is coprime with
+/// 1000, so the first n <= 1000 keys are distinct and not in key order), disjoint from the key pool.
+pub fn fill_updates(n: u16, seed: u16) -> Vec<(i32, i32)> {
+    (0..n.min(1000) as u32)
+        .map(|i| {
+            let k = 100 + ((i * 7919 + seed as u32) % 1000) as i32;
+            (k, (i % 7) as i32)
+        })
+        .collect()
 }
 
 impl Note {
@@ -51,6 +65,26 @@ impl Note {
             Note::Clear => "clear",
             Note::Take(_) => "take",
             Note::Drop(_) => "drop",
+            Note::Fill { .. } => "fill",
+        }
+    }
+
+    /// The wire frames of this notification (one, except for `Fill`).
+    pub fn frames(&self) -> Vec<BytesMut> {
+        match self {
+            Note::Fill { n, seed } => fill_updates(*n, *seed)
+                .into_iter()
+                .map(|(k, v)| {
+                    let mut b = BytesMut::new();
+                    Note::Upd(k, v).encode(&mut b);
+                    b
+                })
+                .collect(),
+            other => {
+                let mut b = BytesMut::new();
+                other.encode(&mut b);
+                vec![b]
+            }
         }
     }
 
@@ -83,7 +117,7 @@ impl Note {
                     Note::Clear => MapMessage::Clear,
                     Note::Take(n) => MapMessage::Take(*n),
                     Note::Drop(n) => MapMessage::Drop(*n),
-                    _ => unreachable!(),
+                    _ => unreachable!("Fill is sent through frames()"),
                 };
                 let mut body = BytesMut::new();
                 MapMessageEncoder::default()
@@ -467,6 +501,14 @@ fn apply_event(l: &mut Linked, note: Note) -> Vec<Vec<Cb>> {
         Note::Clear => {
             let old = std::mem::take(&mut l.map);
             vec![vec![Cb::Clear { old: snap(&old) }]]
+        }
+        Note::Fill { n, seed } => {
+            let mut all = vec![];
+            for (k, v) in fill_updates(n, seed) {
+                let prev = l.map.insert(k, v);
+                all.push(Cb::Update { key: k, map: snap(&l.map), prev, new: v });
+            }
+            vec![all]
         }
         Note::Take(_) | Note::Drop(_) => {
             let before = l.map.clone();
